@@ -1315,7 +1315,8 @@ def main(repo: str, outdir: str, dry: bool = False) -> int:
         import py2lean
         import py2lean_build
         try:
-            body = py2lean_build.gen_build_step(src("core/compiler.py"))
+            body = (py2lean_build.gen_build_step(src("core/compiler.py")) + "\n"
+                    + py2lean_build.gen_build_iter_step(src("core/compiler.py")))
         except py2lean.TranslateError as e:
             raise TranslateError(str(e))
         return (HEADER + "import Optyx.Py.BuildSupport\n\nset_option linter.unusedVariables false\n\n"
